@@ -17,6 +17,12 @@ claimed = {
  'C01': ('no-Panic theorems over an executable model in which every panicking Rust operation is an explicit Panic result (Coq) + catch_unwind/watchdog runs of debug and release builds of the three feature sets', '6 C01', 'partial for the runtime: memory safety and termination of the implementation itself are sampled, not proved'),
  'C03': ('equality of the buffer algorithm with the 6-bit unpacking specification for all strings and fills (Coq: induction four characters at a time + finite sweeps) + exhaustive byte/phase/fill correspondence', '6 C03', ''),
  'C19': ('theorems pinning the as-is value, refuting the property on a witness and proving it for the repaired model (Coq) + three-way correspondence (impl / as-is model / repaired model); known finding', '6 C19', 'the unchanged tree violates the property: recorded as a known finding'),
+ 'C10': ('two\'s-complement theorem + Flocq binary32 error analysis of the exact operation sequence (Coq) + bit-exact correspondence of the 32 result bits', '6 C10', '"correct to single-precision rounding" is read as relative error <= 2^-22 (two or three roundings); these theorems use the standard library real-number axioms'),
+ 'C11': ('iff theorems per conversion function for every raw value (Coq) + directed sentinel/neighbour correspondence', '6 C11', ''),
+ 'C12': ('exhaustive kernel-checked case splits over all codes against the specification tables (Coq) + exhaustive correspondence through the real message path', '6 C12', ''),
+ 'C13': ('trim/character-table theorems (Coq) + one-hot sweeps and structured texts against the implementation', '6 C13', ''),
+ 'C15': ('data = input bytes after the header, for every length (Coq) + every payload length 0..125 in three builds', '6 C15', ''),
+ 'C16': ('layout theorems for the 19-bit state per type; type 9: as-is pinned, refuted on a witness, proved for the repaired model (Coq) + three-way correspondence; known finding', '6 C16', 'type 9 violates the property on the unchanged tree: recorded as a known finding'),
  'C17': ('state-transparency theorems lifted to histories (Coq) + metamorphic insert/remove runs and two-parser interleavings', '6 C17', 'independence of parser instances is validated, not proved'),
 }
 pending = {}
